@@ -227,6 +227,22 @@ CHECKS = {
         note=E1 + 'thread servlets only under the scheduler: the "traceback as text after a process boundary" clause is C15\'s '
              '(pickling model) plus a small real-process sample on every run.',
         ref='§5 C04', engine='E1-detsched+lean'),
+    'C17': dict(
+        technique='Lean 4 proof (inductive counting invariant, timing invariant, progress + decreasing measure over an LTS model of IterableQueue/ResponsiveQueue) + schedule-controlled trace refinement against the real code',
+        text='C17_exactly_once (received + queued = put as multisets in every reachable state, per round, and received = put when '
+             'all consumers ended), C17_one_marker_left / C17_renew_clean / C17_renew_enabled (exactly one marker at round end; '
+             'renew never raises and yields a fresh round with zero leftovers), C17_all_finish (progress + measure once all '
+             'suppliers ended), C17_stop_responsive (a blocked get/put raises StopRequested within one wait interval of the later '
+             'of stop request and operation start) hold for every action list of the model: all m,n>=1, queue bounds, rounds, '
+             'stop moments, interleavings. Tie: the real IterableQueue runs with real threads under the deterministic scheduler; '
+             'every queue/token operation is logged at its linearisation point and the trace is validated against the model by '
+             'the Lean driver (validator soundness proved); token-queue sizes and queue contents are compared at every quiescent '
+             'point; monitors evaluate the property on each run. Legacy/IterQueue.lean holds the kernel-checked F14 witness and '
+             'serves as recogniser.',
+        note=E1 + 'model follows the repaired code (fixes/F14-*.patch); usage protocol assumed (puts only before put_end, renew after '
+             'all consumers ended, next round after renew); stop bound is in clock units under zero scheduling latency; process '
+             'variant (multiprocessing queues/lock) covered by the theorems only.',
+        ref='§5 C17', engine='E1-detsched+lean'),
 }
 
 CHECKS['C06'] = dict(
